@@ -154,6 +154,11 @@ def _pop(ctx, cfg, rep, problem, m):
     form = cfg.get("form", "list")
     if form == "list":
         return inds, list(inds)
+    if form == "repeats":  # the same Individual object several times, as a selection step hands it over
+        for j in range(1, m):
+            if ctx.bool("repeat"):
+                inds[j] = inds[ctx.cint(0, j - 1, "repeat_of")]
+        return inds, list(inds)
     if form == "iterator":
         return inds, iter(list(inds))
     tr = SingleObjectiveProgressTracker(problem, SequentialEvaluator()) if not isinstance(problem, MultiObjectiveProblem) else None
@@ -183,6 +188,8 @@ def _step(name, ctx):
         return SequenceStep(TournamentSelection(2), GenericCrossoverStep(1), GenericMutationStep(1))
     if name == "sequence_elitism_last":
         return SequenceStep(GenericMutationStep(1), ElitismStep())
+    if name == "selection_then_elitism":
+        return SequenceStep(TournamentSelection(2), ElitismStep())
     if name == "parallel":
         return ParallelStep([ElitismStep(), NoveltyStep(), GenericMutationStep(1)], weights=[ctx.cint(0, 3, "w") for _ in range(3)])
     if name == "exclusive":
@@ -338,14 +345,18 @@ def obligations(tier: str):
 
     K, M = (4, 5) if T else (3, 4)
     small = ("tournament", "lexicase", "nested", "simplegp", "parallel", "sequence", "default", "exclusive", "randomize_parallel", "feedback_parallel")
-    for st in ("elitism", "novelty", "identity", "tournament", "lexicase", "mutation", "crossover", "sequence", "sequence_elitism_last", "parallel", "exclusive", "default", "simplegp", "nested", "randomize_parallel", "adaptive_mutation", "adaptive_crossover", "feedback_parallel"):
+    for st in ("elitism", "novelty", "identity", "tournament", "lexicase", "mutation", "crossover", "sequence", "sequence_elitism_last", "selection_then_elitism", "parallel", "exclusive", "default", "simplegp", "nested", "randomize_parallel", "adaptive_mutation", "adaptive_crossover", "feedback_parallel"):
         forms = ("list", "iterator", "population") if st in ("elitism", "tournament", "parallel", "mutation", "crossover", "lexicase", "exclusive", "feedback_parallel") or T else ("list",)
+        if st in ("elitism", "novelty", "tournament", "mutation", "crossover", "lexicase", "identity"):
+            forms = forms + ("repeats",)
         for form in forms:
             if st == "default" and not T:
                 continue  # tournament of 5 inside: 2^5 draw outcomes per winner; thorough tier only
             k_, m_ = (K, M) if st not in small else ((3, 4) if T else (2, 3))
             if st == "tournament" and not T:
                 k_, m_ = 2, 2
+            if form == "repeats" and st in ("mutation", "crossover") and not T:
+                k_, m_ = 2, 3  # the repeat pattern multiplies the per-individual mutation draws
             add("step", f"step_{st}_{form}", step=st, form=form, K=k_, M=m_, fitness="sym" if st in ("elitism",) else "const")
     add("step", "step_randomize_parallel_two_generations", step="randomize_parallel_fixed", form="list", K=3, M=3, twice=True, timeout=300)
     add("step", "step_feedback_parallel_two_generations", step="feedback_parallel", form="list", K=2, M=2, twice=True, timeout=300)
